@@ -178,9 +178,44 @@ fn verification_thread(node: &LNode) -> (VerificationThread, tokio::sync::mpsc::
     )
 }
 
+async fn replay(path: &str, rep: &mut Report) {
+    let text = std::fs::read_to_string(path).expect("replay file");
+    let v: serde_json::Value = serde_json::from_str(&text).expect("json");
+    let r = &v["replay"];
+    let actors = actors(5);
+    let gp = v["detail"].as_str().unwrap_or("").split("gp=").nth(1).and_then(|x| x.split(']').next()).and_then(|x| x.parse::<u64>().ok()).unwrap_or(20);
+    let mut node = LNode::new(&actors[2], &Params::with_gp(gp));
+    for b in r["parent_chain_hex"].as_array().unwrap() {
+        let bytes = hex::decode(b.as_str().unwrap()).unwrap();
+        let res = node.add_bytes(&bytes).await;
+        rep.note(&format!("chain block -> {:?}", res.map(|x| x.short())));
+    }
+    if let Some(sib) = r["sibling_hex"].as_str() {
+        let res = node.add_bytes(&hex::decode(sib).unwrap()).await;
+        rep.note(&format!("sibling -> {:?}", res.map(|x| x.short())));
+    }
+    let bytes = hex::decode(r["edited_block_hex"].as_str().unwrap()).unwrap();
+    let mut probe = Block::deserialize_from_net(&bytes).unwrap();
+    let _ = probe.generate();
+    let txh: Vec<String> = probe.transactions.iter().map(|t| format!("{:?}:{}", t.transaction_type, hex::encode(&t.hash_for_signature.unwrap_or([0; 32])[..4]))).collect();
+    rep.note(&format!("edited block id {} txs {:?} merkle {} recomputed {}", probe.id, txh, hex::encode(&probe.merkle_root[..4]), hex::encode(&probe.generate_merkle_root(false, false)[..4])));
+    let before = node.tip().await;
+    let res = node.add_bytes(&bytes).await;
+    let after = node.tip().await;
+    rep.eval();
+    rep.note(&format!("edited -> {:?} tip moved {}", res.as_ref().map(|x| x.short()), before != after));
+    if res.map(|x| x.accepted()).unwrap_or(false) {
+        rep.violation(v["signature"].as_str().unwrap_or("C06|replay"), "replayed: edited block accepted", r.clone());
+    }
+}
+
 pub async fn run(ctx: &Ctx, rep: &mut Report) {
+    if let Some(path) = &ctx.replay {
+        replay(path, rep).await;
+        return;
+    }
     let mut rng = ctx.rng();
-    let rounds = ctx.scale(6, 60) / ctx.shards.max(1) + 1;
+    let rounds = ctx.scale(24, 160) / ctx.shards.max(1) + 1;
     // global: accepted blocks by hash -> tx list (clause b)
     let mut accepted: HashMap<Hash, Vec<Vec<u8>>> = HashMap::new();
     for round in 0..rounds {
@@ -315,6 +350,12 @@ pub async fn run(ctx: &Ctx, rep: &mut Report) {
                         let bytes = block_bytes(&edited);
                         let mut probe = Block::deserialize_from_net(&bytes).unwrap();
                         if probe.generate().is_err() || probe.hash != orig.hash {
+                            continue;
+                        }
+                        // an edit that leaves the content unchanged (e.g. swapping two byte-identical
+                        // rebroadcast transactions) is the original block itself
+                        if tx_list_id(&probe) == tx_list_id(&orig) && probe.signature == orig.signature && probe.creator == orig.creator {
+                            rep.count("side_offers_edit_was_identity");
                             continue;
                         }
                         let name = edit_name(e);
